@@ -35,6 +35,15 @@ CLAIMED['C13'] = dict(
          'Holds for all grammars and inputs by induction over rule nesting, which the test-suite cannot enumerate.',
     ref='4.2, 5/C13')
 
+CLAIMED['C04'] = dict(
+    technique='path enumeration of dispatch, action hooks and action rules (abstract interpretation) + apply-mode forwarding check at every rule boundary',
+    text='Claims the per-attempt action protocol, not the run-level trace statement: (a) dispatch H3/H7 on every shape (action only after the rule matched, only when enabled, once, '
+         'before success/failure, begin = position saved at match start, veto => failure + restored cursor + false); (b) normal::apply/apply0 call Action<Rule>::apply/apply0 exactly '
+         'once with action_input(begin,in) and the states unchanged; (c) action_input::begin/end are the stored iterator and the input cursor; (d) every rule body forwards its apply mode '
+         'unchanged except at/not_at/disable (nothing) and enable (action); (e) apply/apply0/if_apply rules. These are necessary conditions decided for all grammars/inputs by induction; '
+         'the whole-run sequence statement follows by composition with C01/C02 and is not separately explored.',
+    ref='5/C04, 4.2, 4.3')
+
 NOT_YET = 'check not built yet in this round (see DESIGN.md section 10 for the order of construction); no claim is made'
 
 NA_REASONS = {}
